@@ -4,13 +4,15 @@ from fractions import Fraction as F
 from . import run, build, compare, ledger, gen
 from .ledger import Line
 
-_CODES = None
+_CODES = None; _INFO = None
 def currencies():
-    global _CODES
+    global _CODES, _INFO
     if _CODES is None:
         r = run.run_harness([{"id": "c", "op": "currencies"}])["c"]
-        _CODES = r["codes"]
+        _CODES = r["codes"]; _INFO = r["info"]
     return _CODES
+def currency_info():
+    currencies(); return _INFO
 
 def hexs(s): return binascii.hexlify(s.encode("utf-8") if isinstance(s, str) else s).decode()
 
